@@ -403,8 +403,12 @@ class Ledger(metaclass=LedgerRegistry):
                 # Nothing to do, network thinks we're already at the latest height.
                 return
 
+            prior_length = len(self.headers)
             added = await self.headers.connect(height, unhexlify(headers))
             if added > 0:
+                if height < prior_length:
+                    # stored headers were replaced: cached transactions verified against them are stale
+                    self._tx_cache.clear()
                 height += added
                 self._on_header_controller.add(
                     BlockHeightEvent(self.headers.height, added))
